@@ -172,6 +172,22 @@ def call_closure(ip, fr, clos, cargs, st):
     return ip.call_body(cb, [a0] + list(cargs), st, fr.chain)
 
 
+def key_value_id(ip, st, clos):
+    """id of the opaque key value an eq-closure compares with (the captured reference's pointee), or None"""
+    try:
+        if clos[0] == "ptr":
+            clos = ip.load(st, *ip.resolve_ptr(st, clos))
+        if clos[0] == "clos" and clos[2]:
+            k = clos[2][0]
+            if k[0] == "ptr":
+                v = ip.load(st, *ip.resolve_ptr(st, k))
+                if v[0] == "opq":
+                    return v[1]
+    except Exception:
+        pass
+    return None
+
+
 def key_identity(ip, st, clos):
     """identity of the key an eq-closure compares with: the captured key reference"""
     try:
@@ -282,6 +298,9 @@ def _find_like(ip, fr, c, t, args, st, wrap):
         return [(("unk", next(ip.ctr), "find"), st)]
     f = loc[2][2]
     s_none = st.fork()
+    kv_id = key_value_id(ip, st, args[2]) if len(args) > 2 else None
+    if kv_id is not None and f.get("#tid") in ip.cache_tids(st):
+        ip.gadd(s_none, "absent_keys", kv_id)      # the table reported no element for this key
     # Some: an element of the table
     size = ip.fresh_int(st, "s")
     st.num.add(le(size[1], f["G"][1]))
@@ -340,6 +359,9 @@ def m_table_remove_entry(ip, fr, c, t, args, st):
     ip.events.append(("table_remove", {"state": st.fork(), "lru": lru, "mru": mru, "chain": fr.chain, "loc": c.loc, "in": fr.body.path}))
     if not lru and not mru:
         ip.gadd(st, "keyed_removal_done", "yes")     # (both outcomes: the key is gone from the table afterwards)
+        kv_id = key_value_id(ip, st, args[2]) if len(args) > 2 else None
+        if kv_id is not None:
+            ip.gadd(st, "absent_keys", kv_id)
     s_none = st.fork()
     f = dict(loc[2][2])
     # which entry?  Keys are unique in the table (C04.2), so a removal by the key that a lookup in this very state found, or by the
@@ -384,6 +406,20 @@ def m_table_remove_entry(ip, fr, c, t, args, st):
 
 
 def _insert(ip, st, loc, entry, fr=None, c=None):
+    # C04.2: an insertion into a cache's own table must be justified (key known absent / table built afresh)
+    tid_ = loc[2][2].get("#tid")
+    if fr is not None and tid_ in ip.cache_tids(st):
+        kid = None
+        if entry[0] == "struct":
+            kv = entry[2].get(ip.r.E_KEY)
+            if kv is not None and kv[0] == "opq":
+                kid = kv[1]
+        just = None
+        if kid is not None and kid in ip.gset(st, "absent_keys"):
+            just = "the table reported this very key absent / removed it beforehand"
+        elif tid_ != ("tid", 0):
+            just = "the table was created empty by this operation and is filled from a traversal of distinct entries"
+        ip.events.append(("table_insert", {"justified": just, "chain": fr.chain, "loc": c.loc if c else None, "in": fr.body.path}))
     if entry[0] == "struct" and fr is not None:
         inv = ip.entry_inv(st, entry[2].get(ip.r.E_SIZE), entry[2].get(ip.r.E_KEY, ("?",)), entry[2].get(ip.r.E_VAL, ("?",)))
         key = ("entry_inv_at_insert", fr.chain, c.loc if c else None)
